@@ -219,10 +219,12 @@ Definition dns_match_st (e : dns_engine) (hostname client_name : bytes) (client_
 (* ---- histories ---- *)
 Inductive op :=
 | QNet (q : request)                                              (* NetworkEngine.MatchAll *)
+| QWeb (q : request)                                              (* Engine.MatchRequest: request and its referrer *)
 | QDns (hostname client_name : bytes) (client_ip : option addr) (tags : list bytes) (dnstype : N)
 | OpClose.                                                        (* the lists become unreadable *)
 Inductive answer :=
 | ANet (rules : list net_rule)
+| AWeb (m : matching_result)
 | ADns (r : dns_result) (matched : bool)
 | ANone.
 
@@ -232,6 +234,13 @@ Variable de : dns_engine.
 Definition step (o : op) : M answer :=
   match o with
   | QNet q => bind (match_all_st 0 ne q) (fun l => ret (ANet l))
+  | QWeb q =>
+    (* engine.go Engine.MatchRequest: the Engine owns a network engine of its own over the same storage (sequential
+       rule objects tagged 2); the referrer, if any, is looked up as a document request without a source *)
+    bind (match_all_st 2 ne q) (fun l =>
+    if isnil (rq_source_url q) then ret (AWeb (new_matching_result l []))
+    else bind (match_all_st 2 ne (new_request psl (rq_source_url q) [] TypeDocument)) (fun src =>
+         ret (AWeb (new_matching_result l src))))
   | QDns h cn ip tags t => bind (dns_match_st de h cn ip tags t) (fun r => ret (ADns (fst r) (snd r)))
   | OpClose => bind close_storage (fun _ => ret ANone)
   end.
